@@ -255,7 +255,18 @@ class FMemUniverse(FUniverse):
 
     @property
     def pos(self):
-        return self.frames[self._cur]
+        fr = self.frames[self._cur]
+        shift = None
+        for t in self.__dict__.get("_transformations", ()):
+            if isinstance(t, tuple) and len(t) == 2 and t[0] == "translate":
+                v = np.asarray(_strip(t[1]), dtype=object)
+                shift = v if shift is None else shift + v
+            else:
+                raise Unsupported(f"trajectory transformation {t!r} is not modelled")
+        if shift is None:
+            return fr
+        # on-the-fly transformations: every frame that is read comes out translated (a new array: edits are not written back)
+        return (fr + shift).view(SArr)
 
     @property
     def trajectory(self):
@@ -375,6 +386,18 @@ def models_selftest(seed=0, rounds=5):
             assert np.allclose(fr, np.asarray(ffr, dtype=float), atol=1e-4); n += 1            # both source arrays saw every edit
             assert np.allclose(rmu.atoms.positions, np.asarray(fmu.atoms.positions, dtype=float), atol=1e-4); n += 1   # rewound to frame 0
             assert np.allclose(rmu.trajectory[nfr - 1].positions, np.asarray(fmu.trajectory[nfr - 1].positions, dtype=float), atol=1e-4); n += 1
+            # on-the-fly translation attached to a memory trajectory: every frame that is read comes out shifted
+            import MDAnalysis.transformations as rtrans
+            fr2 = np.asarray(rng.normal(size=(2, k1 + k2, 3)), dtype=np.float32)
+            rmu2 = RU(rm._topology, fr2.copy(), format=RMR)
+            fmu2 = FMemUniverse(fm._topology, sarr([[[float(x) for x in at] for at in f_] for f_ in fr2]))
+            rmu2.trajectory.add_transformations(rtrans.translate(t))
+            fmu2.trajectory.add_transformations(("translate", t))
+            for k_ in (1, 0):
+                rmu2.trajectory[k_]; fmu2.trajectory[k_]
+                assert np.allclose(rmu2.atoms.positions, np.asarray(fmu2.atoms.positions, dtype=float), atol=1e-4); n += 1
+                assert np.allclose(rmu2.select_atoms(f"not bynum {k1 + 1}:{k1 + k2 + 1}").center_of_mass(),
+                                   np.asarray(fmu2.select_atoms(f"not bynum {k1 + 1}:{k1 + k2 + 1}").center_of_mass(), dtype=float), atol=1e-4); n += 1
             A, B = rng.normal(size=(3, 3)), rng.normal(size=(2, 3))
             for metric in ("euclidean", "cosine"):
                 assert np.allclose(cdist(A, B, metric=metric), np.asarray(fcdist(A, B, metric=metric), dtype=float), atol=1e-12); n += 1
